@@ -20,7 +20,7 @@ import itertools
 from ..domains import AbsStr, Sym, weak_orderings, NonComparisonUse, Cond
 from ..interp import (AbstractValue, Interp, Oracle, Obj, Unknown, enumerate_paths, Raised, is_abstract,
                       MISSING, InterpError)
-from ..model import AnalysisError, loc, walk_function
+from ..model import AnalysisError, FuncInfo, loc, walk_function
 
 EXPLANATION = (
     "relation(), eval_tokens(), eval_new_child(), ParseToken.__lt__ and make_tokens() of "
@@ -351,6 +351,15 @@ def _tile_run(model, ranks):
     it.func_hooks[mk.qualname] = lambda interp, fi, args, kwargs: Made(('token', args[0].attrs['_n']))
     it.intrinsics['html.unescape'] = lambda interp, args, kwargs: AbsStr(prov=('unescape', args[0].prov)) \
         if isinstance(args[0], AbsStr) else Unknown('unescape')
+    # a function of the package applied to the text alone is taken as "the resolver of character references"
+    # here; what it computes is decided separately, by folding the tokenizer on the specification's table
+    orig = it.call_function
+
+    def spy(f, args, kwargs, node=None):
+        if len(args) == 1 and not kwargs and isinstance(args[0], AbsStr) and isinstance(f, FuncInfo) and f.cls is None:
+            return AbsStr(prov=('unescape', args[0].prov))
+        return orig(f, args, kwargs, node)
+    it.call_function = spy
     res = it.call(mt, [[t1, t2], Sym('start', ranks['start']), Sym('end', ranks['end']), string, Fallback()], {})
     out = []
     for m in res:
@@ -370,7 +379,7 @@ def _norm_slice(p, string):
 def rule_tile(ctx, rep, only_verbatim=False):
     model = ctx.model
     rule = 'R-GAP-VERBATIM' if only_verbatim else 'R-TILE'
-    rep.rule(rule, 'make_tokens: gap [prev_end, token.start) / token / tail [prev_end, end); gap text through html.unescape only')
+    rep.rule(rule, 'make_tokens: gap [prev_end, token.start) / token / tail [prev_end, end); gap text has its character references resolved (as the specification defines them) and is otherwise untouched')
     mt = model.func('span_tokenizer.make_tokens')
     unit = model.unit_of(mt)
     rep.instance(rule)
@@ -426,10 +435,28 @@ def rule_tile(ctx, rep, only_verbatim=False):
         if not ok:
             rep.find(rule, 'span_tokenizer.make_tokens', 'tiling' if verbatim else 'gap-text',
                      ('emitted %s, expected %s' % (got, want)) if verbatim else
-                     'text between tokens is not html.unescape(string[prev_end:next_start]) and nothing else: %s' % (out,),
+                     'text between tokens is not string[prev_end:next_start] passed through one resolver of character references and nothing else: %s' % (out,),
                      loc(unit, mt.node))
             break
     rep.floor(rule, n, 32 if rep.rules[rule]['discharged'] == rep.rules[rule]['obligations'] else 1)
+    # what "unescaped" means: the tokenizer, folded on one text of every class of the specification's table of
+    # character references with a recording fallback class and no other token class, hands the fallback the
+    # text with exactly the references of the specification resolved, once
+    from .. import charref
+    tk = model.func('span_tokenizer.tokenize')
+
+    def resolve(text):
+        fb = charref.Recorder()
+        r = charref.fold(model, tk, [text, [fb]])
+        return fb.texts[0] if len(fb.texts) == 1 else 'tokenize gives %r, fallback texts %r' % (r, fb.texts)
+    bad = charref.failing_rows(resolve)
+    rep.obligation(rule, not bad, {'character reference table': len(charref.TABLE), 'rows that differ': [b[0] for b in bad]})
+    if bad:
+        text, got, want = bad[0]
+        rep.find(rule, 'span_tokenizer.make_tokens', 'gap-text:character-references',
+                 'plain text %r reaches the fallback token as %r; the specification resolves only numeric references and '
+                 'HTML5 entity names with their semicolon, once: %r (%d of %d table rows differ)'
+                 % (text, got, want, len(bad), len(charref.TABLE)), loc(unit, mt.node), witness=text)
     if only_verbatim:
         return
     # children over [parse_start, parse_end)
